@@ -1,7 +1,7 @@
 (* Props/C10.v — C10: the JSON parser (json/parse.go).
    Statements only; each is closed by [exact] of a lemma proved in coq/theories/Json/. *)
 From Verif Require Import Common.Base Common.Lx Json.Model Json.Lex Json.Spec Json.Grammar Json.Proofs Json.Trace
-  Json.Accept.
+  Json.Accept Json.Sticky.
 
 (* MAIN THEOREM.  Every document of the RFC 8259 grammar (Json/Grammar.v: whitespace explicit at the six
    structural positions; all escape and number forms) is parsed to the end of the input without a parse
@@ -73,3 +73,29 @@ Theorem json_key_state :
     (state p' = Some S_ObjectValue <-> fst u = G_String /\ state p = Some S_ObjectKey).
 Proof. exact json_key_state_proof. Qed.
 Print Assumptions json_key_state.
+
+(* json_error_sticky, end-of-input clause (full strength, after fix 01dbc08): once Next has returned
+   ErrorGrammar with Err() = io.EOF, every further call returns ErrorGrammar with Err() = io.EOF, and the
+   state stack, needComma and the offset are unchanged. *)
+Theorem json_error_sticky :
+  forall d p p1 n, json_inv d p -> next p = Some ((G_Error, None), p1) -> err_kind p1 = 1 ->
+    exists tr, trace n p1 = Some tr /\ length tr = n /\
+      Forall (fun up => fst up = (G_Error, None) /\ err_kind (snd up) = 1 /\ pst (snd up) = pst p1 /\
+                        pneed (snd up) = pneed p1 /\ lpos (pz (snd up)) = lpos (pz p1)) tr.
+Proof. exact json_eof_sticky_proof. Qed.
+Print Assumptions json_error_sticky.
+
+(* Err() never becomes nil again once it is non-nil (EOF, parse error or reader error). *)
+Theorem json_err_stays :
+  forall d p u p', json_inv d p -> next p = Some (u, p') -> err_kind p <> 0 -> err_kind p' <> 0.
+Proof. exact json_err_stays_proof. Qed.
+Print Assumptions json_err_stays.
+
+(* The parse-error clause of stickiness is FALSE of the code: after the expected-colon error on the
+   document  { 'a' 'b' : 1 }  (with double quotes) the next call returns the String unit 'b'
+   (Err() keeps the old error). *)
+Theorem json_parse_error_sticky_refuted :
+  exists d tr, trace 3 (json_init d) = Some tr /\ grammars tr = [G_StartObject; G_Error; G_String] /\
+               map (fun up => err_kind (snd up)) tr = [0; 2; 2].
+Proof. exact json_parse_error_sticky_refuted_proof. Qed.
+Print Assumptions json_parse_error_sticky_refuted.
